@@ -200,6 +200,59 @@ theorem decode_encode_null (cfg : Cfg α) (key : Bytes) (v : Val α)
 `decode` returns the default — i.e. that same object, so the caller still receives the stored value. -/
 theorem decode_same (cfg : Cfg α) (key : Bytes) (w : Val α) : decode cfg key w true = .dflt := rfl
 
+
+/-- the value `v` round-trips under key `k` through the serializer alone (the conclusion of
+`decode_encode` / `decode_encode_null`) -/
+def RoundTrips (cfg : Cfg α) (k : Bytes) (v : Val α) : Prop :=
+  ∃ w, encode cfg k v = some w ∧ decode cfg k w false = .value v
+
+/-- **set / get**: whatever the store held, after `set k v` a `get k` yields `v`. -/
+theorem set_get (cfg : Cfg α) (st : SStore α) (k : Bytes) (v : Val α) (h : RoundTrips cfg k v) :
+    (st.set cfg k v).get cfg k = .value v := by
+  obtain ⟨w, he, hd⟩ := h
+  simp [SStore.set, SStore.get, SStore.lookup, he, hd]
+
+/-- a `set` under one key does not disturb what is read under another -/
+theorem set_get_other (cfg : Cfg α) (st : SStore α) (k k' : Bytes) (v : Val α) (hne : k ≠ k') :
+    (st.set cfg k v).get cfg k' = st.get cfg k' := by
+  unfold SStore.set
+  cases encode cfg k v with
+  | none => rfl
+  | some w => simp [SStore.get, SStore.lookup, hne]
+
+/-- **set_many / get_many alike**: after `set_many` of pairs with distinct keys, each of which
+round-trips through the serializer, `get_many` of those keys returns exactly the values, in order —
+whatever the store held before. -/
+theorem set_many_get_many (cfg : Cfg α) (st : SStore α) (pairs : List (Bytes × Val α))
+    (hnd : (pairs.map (·.1)).Nodup) (h : ∀ kv ∈ pairs, RoundTrips cfg kv.1 kv.2) :
+    (st.setMany cfg pairs).getMany cfg (pairs.map (·.1)) = pairs.map (fun kv => .value kv.2) := by
+  -- generalised: a key written once and not written again keeps its value
+  have keep : ∀ (ps : List (Bytes × Val α)) (s : SStore α) (k : Bytes),
+      k ∉ ps.map (·.1) → (SStore.setMany cfg s ps).get cfg k = s.get cfg k := by
+    intro ps
+    induction ps with
+    | nil => intro s k _; rfl
+    | cons p r ih =>
+      intro s k hk
+      simp only [List.map_cons, List.mem_cons, not_or] at hk
+      simp only [SStore.setMany, List.foldl_cons]
+      have := ih (s.set cfg p.1 p.2) k hk.2
+      simp only [SStore.setMany] at this
+      rw [this, set_get_other cfg s p.1 k p.2 (fun e => hk.1 e.symm)]
+  induction pairs generalizing st with
+  | nil => rfl
+  | cons p r ih =>
+    simp only [List.map_cons, List.nodup_cons] at hnd
+    have hp := h p (by simp)
+    have hr : ∀ kv ∈ r, RoundTrips cfg kv.1 kv.2 := fun kv m => h kv (by simp [m])
+    have tail := ih (st.set cfg p.1 p.2) hnd.2 hr
+    simp only [SStore.setMany, List.foldl_cons, SStore.getMany, List.map_cons] at tail ⊢
+    have head : (SStore.setMany cfg (st.set cfg p.1 p.2) r).get cfg p.1 = .value p.2 := by
+      rw [keep r _ p.1 hnd.1]
+      exact set_get cfg st p.1 p.2 hp
+    simp only [SStore.setMany] at head
+    rw [head, tail]
+
 /-! ### non-vacuity: a concrete configuration that satisfies every hypothesis, evaluated -/
 
 /-- toy pickler: `obj n ↦ [0x80, n]` -/
@@ -250,6 +303,9 @@ example : (encode (toyCfg none) [0x6b] (.bytes [0x6d, 0x64, 0x35, 0x3a, 0x78, 0x
     (fun w => decode (toyCfg none) [0x6b] w false) = some (.value (.bytes [0x6d, 0x64, 0x35, 0x3a, 0x78, 0x5f, 0x79])) := by decide
 example : (encode (toyCfg (some toySigner)) [0x6b] (.obj 7)).map
     (fun w => decode (toyCfg (some toySigner)) [0x6b] w false) = some (.value (.obj 7)) := by decide
+-- set_many then get_many through the store glue: digit-only bytes, an object and an integer come back as written
+example : (SStore.setMany (toyCfg (some toySigner)) [] [([0x6b], .bytes [0x31]), ([0x6c], .obj 7), ([0x6d], .int 5)]).getMany
+    (toyCfg (some toySigner)) [[0x6b], [0x6c], [0x6d]] = [.value (.bytes [0x31]), .value (.obj 7), .value (.int 5)] := by decide
 -- a raw digit blob in the store is an integer
 example : decode (toyCfg (some toySigner)) [0x6b] (.bytes [0x30, 0x34, 0x32]) false = .value (.int 42) := by decide
 
